@@ -42,6 +42,16 @@ func (s *Service) scheduleAttestations(ctx context.Context,
 	s.attesterDutiesMutex.Lock()
 	defer s.attesterDutiesMutex.Unlock()
 
+	s.scheduleAttestationsLocked(ctx, epoch, validatorIndices, notCurrentSlot)
+}
+
+// scheduleAttestationsLocked schedules attestations for the given epoch and validator indices.
+// The caller must hold attesterDutiesMutex.
+func (s *Service) scheduleAttestationsLocked(ctx context.Context,
+	epoch phase0.Epoch,
+	validatorIndices []phase0.ValidatorIndex,
+	notCurrentSlot bool,
+) {
 	started := time.Now()
 	s.log.Trace().Uint64("epoch", uint64(epoch)).Msg("Scheduling attestations")
 
@@ -121,7 +131,7 @@ func (s *Service) scheduleAttestations(ctx context.Context,
 				"Attest",
 				fmt.Sprintf("Attestations for slot %d", duty.Slot()),
 				jobTime,
-				func(ctx context.Context) { s.AttestAndScheduleAggregate(ctx, duty) },
+				func(ctx context.Context) { s.attestOnce(ctx, duty) },
 			); err != nil {
 				// Don't return here; we want to try to set up as many attester jobs as possible.
 				s.log.Error().Err(err).Msg("Failed to schedule attestation")
@@ -130,6 +140,39 @@ func (s *Service) scheduleAttestations(ctx context.Context,
 	}
 	wg.Wait()
 	s.log.Trace().Dur("elapsed", time.Since(started)).Msg("Scheduled attestations")
+}
+
+// attestOnce runs the attestation process for the duty, unless it has already been started for the duty's slot.
+// Duties for an epoch can be obtained more than once (for example when a slow response overlaps a refresh),
+// and a job set up after the job for the same slot has started must not run the process a second time.
+func (s *Service) attestOnce(ctx context.Context, duty *attester.Duty) {
+	slot := duty.Slot()
+
+	s.attestationSlotsMutex.Lock()
+	if s.lastAttestationSlotSet && slot <= s.lastAttestationSlot {
+		_, inFlight := s.attestationsInFlight[slot]
+		s.attestationSlotsMutex.Unlock()
+		s.log.Debug().Uint64("slot", uint64(slot)).Msg("Attestations for this slot already started; not attesting again")
+		if !inFlight {
+			// The earlier job has finished, so nothing else clears the note made when this job was set up.
+			s.pendingAttestationsMutex.Lock()
+			delete(s.pendingAttestations, slot)
+			s.pendingAttestationsMutex.Unlock()
+		}
+		return
+	}
+	s.lastAttestationSlot = slot
+	s.lastAttestationSlotSet = true
+	s.attestationsInFlight[slot] = struct{}{}
+	s.attestationSlotsMutex.Unlock()
+
+	defer func() {
+		s.attestationSlotsMutex.Lock()
+		delete(s.attestationsInFlight, slot)
+		s.attestationSlotsMutex.Unlock()
+	}()
+
+	s.AttestAndScheduleAggregate(ctx, duty)
 }
 
 // AttestAndScheduleAggregate attests, then schedules aggregation jobs as required.
